@@ -51,9 +51,9 @@ def main():
     s = open(p).read()
     a = s.index("### 7.5 / 7.6")
     b = s.index("## 8. Measured cost")
-    body = ("### 7.5 Seeded changes from independent sub-agents (two waves of 20)\n\n"
+    body = ("### 7.5 Seeded changes from independent sub-agents (three waves of 20, 60 changes)\n\n"
             "Every change below compiles, leaves the repository suite at its baseline, and comes with a demonstration that "
-            "passes without and fails with it (`seeded/<name>/`). The second wave was told what the first wave had done "
+            "passes without and fails with it (`seeded/<name>/`). The second and third wave were told what the earlier waves had done "
             "and asked for a different mechanism in a different clause of the property.\n\n" + seeded_table() +
             "\n\n### 7.6 Hand-written mutants (`mutants/specs.py`)\n\n" + mutant_table() + "\n\n\n")
     open(p, "w").write(s[:a] + body + s[b:])
